@@ -59,6 +59,8 @@ type Sub struct {
 	Floor         int    // fewer executed cases than this => inconclusive
 	Gen           func(emit func(payload string))
 	Exec          func(c *Case)
+	// Sample renders a payload readably for the evidence file (default: the payload itself).
+	Sample func(payload string) any
 	// Final may inspect merged counters and declare the run inconclusive
 	// (return a non-empty reason), e.g. when a hook never fired.
 	Final func(r *SubReport) string
@@ -387,7 +389,18 @@ func runSubs(subs []*Sub, only string) *runResult {
 			res.failures = append(res.failures, sh.failures...)
 			for _, s := range sh.samples {
 				if len(rep.Samples) < 8 {
-					rep.Samples = append(rep.Samples, sampleJSON(s))
+					if sub.Sample != nil {
+						func() {
+							defer func() {
+								if recover() != nil {
+									rep.Samples = append(rep.Samples, sampleJSON(s))
+								}
+							}()
+							rep.Samples = append(rep.Samples, sub.Sample(s))
+						}()
+					} else {
+						rep.Samples = append(rep.Samples, sampleJSON(s))
+					}
 				}
 			}
 		}
